@@ -864,11 +864,38 @@ class exists_elim(Method):
                 raise AssertionError("exists_elim: cannot find intros at the end")
             else:
                 if item.rule == 'intros':
-                    if item.args is None:
-                        item.args = [exists_prop]
-                    else:
-                        item.args = [exists_prop] + item.args
-                    item.prevs = item.prevs[:-1] + new_intros + [item.prevs[-1]]
+                    args = item.args if item.args is not None else []
+
+                    # Classify the entries of prevs in the same way as the
+                    # intros macro.
+                    kinds = [None] * (len(item.prevs) - 1)
+                    rest = args
+                    for j in reversed(range(len(kinds))):
+                        prop = state.get_proof_item(item.prevs[j]).th.prop
+                        if prop.is_VAR():
+                            kinds[j] = 'variable'
+                        elif len(rest) > 0 and prop == rest[0]:
+                            kinds[j] = 'exists'
+                            rest = rest[1:]
+                        else:
+                            kinds[j] = 'assume'
+
+                    # The new lines are introduced before the lines of
+                    # eliminations made at later lines of the proof.
+                    def is_later(prev):
+                        return len(prev.id) == len(id.id) and prev.id[:-1] == id.id[:-1] and \
+                            prev.id[-1] > id.id[-1]
+
+                    pos = len(kinds)
+                    for j in range(len(kinds)):
+                        if kinds[j] != 'exists' and is_later(item.prevs[j]):
+                            pos = j
+                            break
+                    if pos > 0 and kinds[pos-1] == 'exists':
+                        pos -= 1
+                    n_later = kinds[pos:].count('exists')
+                    item.args = args[:n_later] + [exists_prop] + args[n_later:]
+                    item.prevs = item.prevs[:pos] + new_intros + item.prevs[pos:]
                     break
                 elif item.rule not in ('assume', 'variable'):
                     state.set_line(id.incr_id(i), item.rule, args=item.args, prevs=item.prevs, \
